@@ -1,10 +1,11 @@
 """C06 - semilegal generation, semilegal validation and well-formedness agree."""
-from . import genrules, witness
+from . import genrules, witness, emitrules
 
 
 def run(ctx):
     facts = ctx.facts("dev")
     ctx.decided += [
+        'G7 the semilegal generator, read as set algebra over the iterated bitboards (rules/emitrules.py), emits the move S->D of each (kind, piece) exactly when the rules allow it: all 64x64 square pairs x abstract boards (destination, blockers, en-passant mark), both colours; sliding lookups taken as what C15/T2-T3 prove them to be; castling is rule G4/N5',
         "G5w E4 witnesses for the privacy of Move's fields and the unsafety of Move::new_unchecked",
         "G1/G2 each of the five generator families (both colours, every sink) reaches exactly the emitters its documented move class "
         "prescribes; the classes partition: all = capture + simple, simple = no_promote + promote; allowed_mask table",
@@ -29,3 +30,4 @@ def run(ctx):
     genrules.semilegal_rule(ctx, facts, "G6", thorough=True)
     witness.cf_rule(ctx, 'G5w', ('cf/C06/', 'cf/C19/unsafe-new'),
                     "a Move's fields cannot be changed from outside, and the unchecked constructor needs `unsafe` (compile-fail witnesses)")
+    emitrules.emitter_rule(ctx, facts, 'G7')
